@@ -65,6 +65,12 @@ macro_rules! float_from_lexical {
                 options: &Self::Options,
             ) -> lexical_util::result::Result<(Self, usize)>
             {
+                let format = NumberFormat::<{ FORMAT }> {};
+                if !format.is_valid() {
+                    return Err(format.error());
+                } else if !is_valid_options_punctuation(FORMAT, options.exponent(), options.decimal_point()) {
+                    return Err(Error::InvalidPunctuation);
+                }
                 Self::parse_partial::<FORMAT>(bytes, options)
             }
         }
